@@ -1617,6 +1617,9 @@ impl<'a> CompilerState<'a> {
                                                             },
                                                             None => 0,
                                                         };
+                                                        if pxxx.next().is_some() {
+                                                            return Err(self.syntax_error(&format!("Incorrect suffix to reference {}", s), start));
+                                                        }
                                                         let var = self.variables.get(&s);
                                                         if let Some(vx) = var {
                                                             if vx.var_type != VariableType::CharPtr
